@@ -406,6 +406,15 @@ func (o *Obligation) queryLevel(rounds int) string {
 		if o.exclude != nil && fv.lines[i].obl != nil && o.exclude[fv.lines[i].obl] {
 			continue
 		}
+		if o.exclude != nil && i >= o.batchFrom {
+			// a batch is proved in the context of its FIRST member: facts asserted after that point (for
+			// instance the well-formedness of a slice just cut) presuppose earlier members; only the
+			// definitions of the names the later goals mention are kept
+			t := fv.lines[i].text
+			if !strings.HasPrefix(t, "(declare-") && !strings.HasPrefix(t, "(define-") {
+				continue
+			}
+		}
 		body = append(body, fv.lines[i].text)
 	}
 	var goalLine string
